@@ -1747,6 +1747,7 @@ fn c10_base(r: &mut Prng) -> C10Plan {
         flood: 0,
         silent_after_garbage: r.chance(1, 2),
         coop: r.chance(1, 6),
+        connect_behind_garbage: r.chance(1, 3),
     }
 }
 impl Family for C10Family {
@@ -1766,7 +1767,10 @@ impl Family for C10Family {
             p.ep.stream_buf = *r.pick(&[1usize, 2, 4]);
             p.flood = *r.pick(&[1usize, p.ep.stream_buf, p.ep.stream_buf + 1, p.ep.stream_buf + 2, p.ep.stream_buf + 8]);
             p.victim_shutdown = false;
-            p.garbage = None;
+            // with the accept backlog filled to the brim (but the task not stuck yet) the connection
+            // may end on a message that is not a frame, with another Connect right behind it
+            p.garbage = if p.flood <= p.ep.stream_buf && r.chance(1, 2) { Some(r.below(6) as u8) } else { None };
+            p.connect_behind_garbage = p.garbage.is_some() && r.chance(2, 3);
             for _ in 0..r.below(4) {
                 p.seqn.push(FOp { op: r.below(N_OPS as usize) as u8, id: r.below(N_IDS as usize) as u8, yields: r.below(5) });
             }
